@@ -117,6 +117,11 @@ def run(ctx):
         for seed in ([1] * n, [0] * n, [1, 0] * n, None):
             cases.append({"fn": "completion", "coefs": [hexf(x) for x in coefs], "coef_type": "F", "seed": None if seed is None else seed[:n],
                           "expect": "documented", "timeout": 120, "site": "infeasible", "kind": "zero-ended"})
+    # Laurent lists with |F| > 1 on the whole circle (one coefficient exceeds 1 + the sum of the others): no completion exists, CompletionError
+    for coefs in ([0.125, 2.25, 0.125], [2.0, 0.3], [0.2, 3.0, 0.1], [0.1, 0.1, 1.5], [-1.8, 0.2, 0.3, 0.1]):
+        for seed in (None, [0] * (len(coefs) - 1), [1] * (len(coefs) - 1)):
+            cases.append({"fn": "completion", "coefs": [hexf(x) for x in coefs], "coef_type": "F", "seed": seed, "expect": "CompletionError",
+                          "timeout": 120, "site": "infeasible", "kind": "outside-disc"})
     impl = run_impl(cases, timeout=3000)
     for c, r in zip(cases, impl):
         ctx.count(c, nontrivial=True, bucket="%s/%s/%s" % (c["site"], c.get("kind", c["fn"]), r.get("exc", "returned")))
@@ -176,6 +181,12 @@ def run(ctx):
             ph = [rng.uniform(-1, 1) for _ in range(rng.randint(2, 5))]
             pre, pim = Q.corner_of_phases(ph)
             return {"call": "qspp", "poly": Q.cplx_hex(pre, pim), "complex": True, "signal_operator": "Wx", "measurement": "z"}
+        if k == "completion" and rng.random() < 0.35:
+            # zero-ended Laurent list with explicit reflection bits held by the caller (ndarray / list / tuple)
+            n = rng.randint(2, 4)
+            v = [0.0] + [rng.uniform(-0.4, 0.4) for _ in range(n - 1)] + [rng.choice([0.0, 0.3])]
+            return {"call": "completion", "coefs": [hexf(x) for x in v], "coef_type": "F", "seed": [rng.randint(0, 1) for _ in range(n)],
+                    "seed_container": rng.choice(["array", "list", "tuple", "boolarray"])}
         if k == "completion":
             n = rng.randint(1, 6)
             v = [rng.uniform(-1, 1) for _ in range(n + 1)]
